@@ -43,9 +43,28 @@ def runRedef (fl : Flags) (b : Block) : Res :=
   | _, none, _ => { conform := some "no_target", propNA := true }
   | _, _, .nilArg => { conform := some "builder_nilarg", propNA := true }
   | _, _, .optErr _ => { conform := some "builder_opterr", propNA := true }
-  | none, some target, .ok bld =>
+  | none, some target, .ok bld0 =>
   let fin := parseFilter ((kv b.head "fin").getD "none")
   let fout := parseFilter ((kv b.head "fout").getD "none")
+  -- converter generators run while the Redefine graph is built, after the output filter was checked
+  let snap := genVerts (preGenGraph bld0 sc.fn target)
+  let rawRuns := (splitRunsWith ["gi", "rdres"] b.lines).map (fun r => r.2)
+  let outRej := !outputsPass sc.env target fout
+  -- with a rejected output the graph is never built: no invocation at all
+  let giC := if outRej then
+      (if rawRuns.any (fun r => !(giOf r).isEmpty) then some "generators_invoked_although_the_output_filter_rejects" else none)
+    else giConform sc bld0 snap (expandGens sc.genOf bld0 snap).isNone rawRuns
+  match expandGens sc.genOf bld0 snap with
+  | none =>
+    let want := if outRej then ["err", "outfilter"] else ["err", "generr"]
+    let ok := rawRuns.all (fun r => ((r.find? (fun l => l.head? = some "rdres")).getD []).drop 1 = want)
+    let pan := rawRuns.any (fun r => let t := ((r.find? (fun l => l.head? = some "rdres")).getD []).drop 1
+                                     t.head? = some "panic" ∨ t.head? = some "crash")
+    { conform := (if ok then none else some s!"failing_generator_expected_{"_".intercalate want}_from_redefine").or giC, propNA := true,
+      props := [("C08", "na"), ("C09", "na"), ("C06", if pan then "FAIL:redefine_panicked_when_a_generator_reports_an_error" else "ok")],
+      stats := ["outcome=generr", s!"convs={bld0.convs.length}", "execs=1", "gens=err"] }
+  | some bld =>
+  let genStat := if bld0.gens.isEmpty then "gens=none" else if bld.convs.length > bld0.convs.length then "gens=fired" else "gens=idle"
   let cgr := callGraph fl.var sc.env bld sc.fn target true fin
   let dl := (field b "dump").getD []
   let (mv, me) := dumpOf cgr.cg
@@ -96,13 +115,13 @@ def runRedef (fl : Flags) (b : Block) : Res :=
     let p09 : Option String := if rdexecs = 0 then none else some s!"redefine_executed_{rdexecs}_user_function_bodies"
     let p06 : Option String := if rdres.head? = some "panic" ∨ rdres.head? = some "crash" then some s!"redefine_{noSpace (showImplRedef rdres)}" else none
     (c1.or c2, p08, p09, p06, rdres))
-  let conform := cd.or (per.findSome? (fun p => p.1))
+  let conform := giC.or (cd.or (per.findSome? (fun p => p.1)))
   let v := fun (f : (Option String × Option String × Option String × Option String × List String) → Option String) =>
     verdictStr (per.findSome? f)
   let cls := ((per.headD (none, none, none, none, [])).2.2.2.2).headD "none"
   { conform := conform, propNA := true,
     props := [("C08", v (·.2.1)), ("C09", v (·.2.2.1)), ("C06", v (·.2.2.2.1))],
-    stats := [s!"outcome={cls}", s!"convs={bld.convs.length}", s!"execs=1", s!"runs={per.length}"] }
+    stats := [s!"outcome={cls}", s!"convs={bld.convs.length}", s!"execs=1", s!"runs={per.length}", genStat] }
 
 end ArgMapper.Driver
 
